@@ -627,6 +627,29 @@ static void c01_body()
         vrt::distinct(vrt::fnv1a(cps.data(), cps.size() * sizeof(unsigned long), 72));
         if (vrt::want_sample("sequences") && len > 4) { S s; for (auto c : cps) s += sfmt("U+%04lX ", c); vrt::sample("sequences", s); }
     });
+    // homogeneous runs of every length 0..72 (1-, 2-, 3- and 4-byte characters) followed by one character of every width
+    // class and a short tail: what a word-at-a-time / block-wise fast path or an alignment-dependent loop would get wrong
+    {
+        static const unsigned long runch[] = {0x61, 0xE9, 0x20AC, 0x1F600};
+        static const unsigned long mid[] = {0x00, 0x7F, 0x80, 0xE9, 0x7FF, 0x800, 0x20AC, 0xD7FF, 0xE000, 0xFFFF, 0x10000, 0x1F600, 0x10FFFF};
+        static const size_t tails[] = {0, 1, 7, 8, 9};
+        const size_t nmid = sizeof(mid) / sizeof(mid[0]);
+        vrt::require("runs", 1000);
+        vrt::phase("runs", 73 * 4, [&](uint64_t i, Rng &) {
+            const size_t n = i / 4;
+            const unsigned long rc = runch[i % 4];
+            for (size_t m = 0; m < nmid; ++m)
+                for (size_t t : tails) {
+                    std::vector<unsigned long> cps(n, rc);
+                    cps.push_back(mid[m]);
+                    cps.insert(cps.end(), t, rc);
+                    from_scalars(cps, (n + m + t) % 8 == 0);
+                    vrt::count("runs");
+                    vrt::distinct(vrt::fnv1a(cps.data(), cps.size() * sizeof(unsigned long), 74));
+                }
+            if (vrt::want_sample("runs") && n == 8) vrt::sample("runs", sfmt("%zu x U+%04lX, then each of 13 boundary scalars, then 0/1/7/8/9 x U+%04lX: all routes x 3 modes", n, rc, rc));
+        });
+    }
     // all 256 Latin-1 bytes at every position of strings of length 1..20 (around the SSO limit)
     vrt::phase("latin1", 256, [&](uint64_t byte, Rng &r) {
         for (size_t len = 1; len <= 20; ++len) {
@@ -738,6 +761,32 @@ static void malformed_phases(bool safety_only)
         run32(s, i % 8 == 0);
         if (vrt::want_sample("small_utf32") && s.size() == L32 && ref::has_bad(ref::decode_utf32(s.data(), s.size()))) vrt::sample("small_utf32", "units " + showu(s));
     });
+    // a malformed / tolerated piece after a homogeneous run of every length (block-wise fast paths, alignment), with a short tail
+    {
+        static const char *const run8s[] = {"a", "\xC3\xA9", "\xE2\x82\xAC", "\xF0\x9F\x98\x80"};
+        static const S bad8[] = {S("\x80"), S("\xBF\x80"), S("\xC3"), S("\xE2\x82"), S("\xF0\x9F\x98"), S("\xC0\x80"), S("\xE0\x80\x80"), S("\xED\xA0\x80"),
+                                 S("\xF4\x90\x80\x80"), S("\xF7\xBF\xBF\xBF"), S("\xF8"), S("\xFF"), S("\0", 1)};
+        static const S16 bad16[] = {S16(1, 0xD800), S16(1, 0xDFFF), S16({0xDC00, 0xD800}), S16({0xD800, 0xD800}), S16({0xD83D, 0x0041})};
+        static const S32 bad32[] = {S32(1, 0x110000), S32(1, 0xD800), S32(1, 0xFFFFFFFFu), S32(1, 0x10FFFF)};
+        const size_t maxrun = vrt::thorough() ? 72 : 40;
+        vrt::require("inputs.after_runs", 1000);
+        vrt::phase("after_runs", (maxrun + 1) * 4, [&](uint64_t i, Rng &) {
+            const size_t n = i / 4, kind = i % 4;
+            S r8; S16 r16; S32 r32;
+            for (size_t k = 0; k < n; ++k) {
+                r8 += run8s[kind];
+                if (kind == 3) { r16 += char16_t(0xD83D); r16 += char16_t(0xDE00); } else r16 += kind == 0 ? u'a' : kind == 1 ? char16_t(0xE9) : char16_t(0x20AC);
+                r32 += kind == 0 ? U'a' : kind == 1 ? char32_t(0xE9) : kind == 2 ? char32_t(0x20AC) : char32_t(0x1F600);
+            }
+            for (size_t t : {size_t(0), size_t(1), size_t(8)}) {
+                for (const S &b : bad8) { run8(r8 + b + S(t, 'z'), false); vrt::count("inputs.after_runs"); }
+                if (kind == 0 || kind == 3) {
+                    for (const S16 &b : bad16) { run16(r16 + b + S16(t, u'z'), false); vrt::count("inputs.after_runs"); }
+                    for (const S32 &b : bad32) { run32(r32 + b + S32(t, U'z'), false); vrt::count("inputs.after_runs"); }
+                }
+            }
+        });
+    }
     // well-formed text cut at every unit; seeded mutation of valid text
     vrt::phase("cut_and_mutate", vrt::tier_count(20000, 250000), [&](uint64_t, Rng &r) {
         std::vector<unsigned long> cps;
